@@ -35,8 +35,10 @@ def monitor(ctx, trace, label):
     n = sum(1 for _ in open(trace))
     if r.depth != n + 1:
         raise vlib.Infra("monitor consumed %d of %d trace lines (%s)" % (r.depth - 1, n, label))
-    return [(m.group(1), int(m.group(2)), m.group(3)) for m in
-            re.finditer(r'<<\s*"MISMATCH",\s*"(C\d+)",\s*(\d+),\s*"([^"]*)"\s*>>', r.out)], n
+    mm = vlib.tuples(r.out, "MISMATCH")
+    if len(mm) != r.out.count('"MISMATCH"'):
+        raise vlib.Infra("unparsed MISMATCH lines in monitor output (%s)" % label)
+    return [(m[0], int(m[1]), m[2]) for m in mm], n
 
 
 def behaviours(g, walks, nmsgs, ops):
